@@ -21,3 +21,8 @@ pub struct IndexSetString { _p: u8 }
 // ASSUMED std spec: magnitude of an i32
 pub assume_specification [i32::unsigned_abs] (x: i32) -> (r: u32)
     ensures r as int == (if x >= 0 { x as int } else { -(x as int) });
+
+// ASSUMED std spec: i32::abs overflows for i32::MIN (panic in builds with overflow checks): that is its precondition here
+pub assume_specification [i32::abs] (x: i32) -> (r: i32)
+    requires x != i32::MIN,
+    ensures r as int == (if x >= 0 { x as int } else { -(x as int) });
